@@ -32,6 +32,12 @@ Theorem c20_reporter_exact_shutdown : forall c sd es ms,
 Proof. intros c sd es ms. split; [apply async_history_sd_eq | apply reporter_exact_sd]. Qed.
 Print Assumptions c20_reporter_exact_shutdown.
 
+(* TopicConfig.SetPartitions snapshots the values it is given *)
+Theorem c20_topic_config_snapshot : forall ops topic,
+  tc_partitions (tc_run ops) topic = tc_partitions (tc_run (own_ops ops)) topic.
+Proof. intros ops topic. rewrite <- topic_config_snapshot. reflexivity. Qed.
+Print Assumptions c20_topic_config_snapshot.
+
 (* --- sync mock: SendMessage --- *)
 Theorem c20_sync_returns_scripted : forall s m,
   r_ret (snd (step_sync s m)) = sync_expected s m /\
